@@ -153,6 +153,7 @@ pub fn run_c04(r: &mut Report) {
 }
 
 pub fn run_c07(r: &mut Report) {
+    agreement_matrix(r, 1, "agreement");
     let owner = key(1);
     let ka = key(2);
     let kb = key(3);
@@ -173,5 +174,48 @@ pub fn run_c07(r: &mut Report) {
         let res = no_panic(|| in_toto_verify(&lay, owner_keys(&[&owner]), d.path().to_str().unwrap(), None));
         r.case(id, json!({"second_link_materials": m2, "second_link_products": p2}), if expect { "Ok" } else { "Err" },
                match &res { Ok(v) => verdict(v), Err(p) => format!("panic: {}", p) }, matches!(&res, Ok(v) if v.is_ok() == expect));
+    }
+}
+
+/// n links of one step, all identical except the one at rank `pos` (in key-id order), which dissents in `kind`.
+/// Shared by C07 (any dissent must be fatal when threshold >= 2) and C13 (the outcome is the same on every run).
+pub fn agreement_matrix(r: &mut Report, repetitions: usize, tag: &str) {
+    let owner = key(1);
+    let mut pool: Vec<_> = (0..6).map(|_| fresh_key()).collect();
+    pool.sort_by(|a, b| a.key_id().cmp(b.key_id()));
+    let kinds: Vec<(&str, Vec<(&str, u8)>, Vec<(&str, u8)>)> = vec![
+        ("product-digest", vec![("m", 1)], vec![("p", 3), ("q", 5)]),
+        ("material-digest", vec![("m", 9)], vec![("p", 2), ("q", 5)]),
+        ("product-omitted", vec![("m", 1)], vec![("p", 2)]),
+        ("product-added", vec![("m", 1)], vec![("p", 2), ("q", 5), ("x", 7)]),
+        ("material-omitted", vec![], vec![("p", 2), ("q", 5)]),
+    ];
+    for n in 2..=5usize {
+        for pos in 0..n {
+            for (kind, dm, dp) in &kinds {
+                for threshold in [2u32, n as u32] {
+                    if threshold as usize > n { continue; }
+                    let d = tmpdir();
+                    let ks: Vec<&in_toto::crypto::PrivateKey> = pool.iter().take(n).collect();
+                    for (i, k) in ks.iter().enumerate() {
+                        let l = if i == pos { link("a", dm, dp) } else { link("a", &[("m", 1)], &[("p", 2), ("q", 5)]) };
+                        write_link(d.path(), "a", k.key_id(), &signed_link(&l, &[k]));
+                    }
+                    let l = layout(vec![step("a", threshold, &ks, allow_all(), allow_all())], vec![], &ks, 30);
+                    let lay = signed_layout(&l, &[&owner]);
+                    let mut seen = std::collections::BTreeSet::new();
+                    for _ in 0..repetitions {
+                        let res = no_panic(|| in_toto_verify(&lay, owner_keys(&[&owner]), d.path().to_str().unwrap(), None));
+                        seen.insert(match &res { Ok(v) => if v.is_ok() { "Ok".to_string() } else { "Err".to_string() }, Err(p) => format!("panic: {}", p) });
+                    }
+                    let ok = seen.len() == 1 && seen.contains("Err");
+                    if !ok || (pos == 0 && threshold == 2) {
+                        // passing cells are summarised (one reported per row) to keep the report small; every failing cell is reported
+                        r.case(&format!("{}-matrix", tag), json!({"links": n, "dissenter_rank": pos, "dissent": kind, "threshold": threshold, "repetitions": repetitions}),
+                               "Err on every run", format!("{:?}", seen), ok);
+                    }
+                }
+            }
+        }
     }
 }
